@@ -31,6 +31,8 @@ def _leaf(fn):
 
 
 def run(ctx, obs):
+    from ..rules import sweeps
+    sweeps.run(ctx, obs, 'C17')
     prog, heap = ctx.prog, ctx.heap
     for t in TRANSFORMS:
         q = T + t
